@@ -689,18 +689,18 @@ class VTF:
         depth_seq = self._depth_range()
 
         mip_count = 0
-        for mip_count in itertools.count():
+        for mip_count in itertools.count(1):
             for frame in range(frames):
                 for cube_or_depth in depth_seq:
-                    self._frames[frame, cube_or_depth, mip_count] = Frame(width, height)
-
-            # Once either is 1 large, we have no more mipmaps.
-            # Create the frame first, so we still create the final 1-large frame.
-            if width <= 1 or height <= 1:
-                break
+                    self._frames[frame, cube_or_depth, mip_count - 1] = Frame(width, height)
 
             width >>= 1
             height >>= 1
+            # Once either would be 1 large, we have no more mipmaps.
+            # Check after creating the frame, so there is always at least the full-size image,
+            # and mipmap_count is exactly the number of mipmaps created (and later saved).
+            if width <= 1 or height <= 1:
+                break
         self.mipmap_count = mip_count
 
     @classmethod
